@@ -11,9 +11,11 @@
 //   plug <name> <pre|post> <d>   a plugin action ran
 //   ended <depth> <cur> <failed> after runOneTest returned: jmp_buf_index, UtestShell::getCurrent()
 //                                ("-" = back outside any test), the shell's hasFailed()
+//   clock <v>                    one reading of the clock seam (scripted by the `clock` op; an
+//                                environment input of the model)
 //   ret <v>                      value returned by runAllTestsMain
+//   propagated <std|other>       rethrow mode: the exception left runAllTestsMain
 //   final <depth> <cur>
-// The clock seam is pinned to 0 so that printed times are deterministic.
 #include "common.h"
 #include <stdexcept>
 #include "CppUTest/TestHarness.h"
@@ -36,7 +38,7 @@ const char* const FILES[4] = { "tests/alpha.cpp", "tests/beta.cpp", "src/helper.
 const char* const PHASE[3] = { "setup", "body", "teardown" };
 
 enum Kind { MARK, PASS, PASSC, FAILCPP, CHECKCPP, FAILC, CHECKC, FAILPLAIN, CHECKPLAIN, FAILCPLAIN, CHECKCPLAIN,
-            THROWSTD, THROWOTHER, EXITTEST };
+            FAILTEST, FAILTESTPLAIN, SHELLFAIL, SHELLFAILC, THROWSTD, THROWOTHER, EXITTEST, EXITTESTC };
 
 struct St { Kind kind; int n; int file; size_t line; };   // file: -1 = the test's own file
 
@@ -50,12 +52,13 @@ struct PErr { std::string only; const char* file; size_t line; };   // only == "
 
 struct PluginDef { std::string name; bool enabled; std::vector<PErr> pre, post; };
 
-// ---- the plain macros: one site each, on four consecutive lines
+// ---- the plain macros: one site each, on five consecutive lines
 enum { SITE_LINE0 = __LINE__ + 1 };
 void site_fail_plain()   { FAIL("failplain"); }
 void site_check_plain()  { CHECK(false); }
 void site_failc_plain()  { FAIL_TEXT_C("failcplain"); }
 void site_checkc_plain() { CHECK_C(0); }
+void site_failtest_plain() { FAIL_TEST("failtestplain"); }
 
 void emit_words(const vh::Words& w) {
     std::string s;
@@ -85,6 +88,11 @@ void interpret(const TestDef* d, int ph) {
         case CHECKPLAIN: site_check_plain(); break;
         case FAILCPLAIN: site_failc_plain(); break;
         case CHECKCPLAIN: site_checkc_plain(); break;
+        case FAILTEST: FAIL_TEST_LOCATION("failtest", f, s.line); break;
+        case FAILTESTPLAIN: site_failtest_plain(); break;
+        case SHELLFAIL: UtestShell::getCurrent()->fail("shellfail", f, s.line); break;
+        case SHELLFAILC: UtestShell::getCurrent()->fail("shellfailc", f, s.line, TestTerminatorWithoutExceptions()); break;
+        case EXITTESTC: UtestShell::getCurrent()->exitTest(TestTerminatorWithoutExceptions()); break;
 #if CPPUTEST_HAVE_EXCEPTIONS
         case THROWSTD: throw std::runtime_error("boom");
         case THROWOTHER: throw 42;
@@ -143,6 +151,8 @@ private:
 };
 
 UtestShell* g_outside = 0;
+// an exception left runAllTests (rethrow mode): the process is expected to end; no further run in this case
+bool g_process_dirty = false;
 
 std::string current_name() {
     UtestShell* c = UtestShell::getCurrent();
@@ -176,7 +186,15 @@ protected:
 extern "C" {
 static void seam_fputs(const char* s, PlatformSpecificFile) { vh::emit("t %s", vh::hex(s, strlen(s)).c_str()); }
 static void seam_flush(void) {}
-static unsigned long seam_time(void) { return 0; }
+// scripted clock: reading i = base + step * i + offs[i % n]
+static unsigned long g_clock_base = 0, g_clock_step = 0, g_clock_calls = 0;
+static unsigned long g_clock_offs[8] = { 0 }; static unsigned g_clock_n = 1;
+static unsigned long seam_time(void) {
+    unsigned long v = g_clock_base + g_clock_step * g_clock_calls + g_clock_offs[g_clock_calls % g_clock_n];
+    g_clock_calls++;
+    vh::emit("clock %lu", v);
+    return v;
+}
 }
 
 bool is_ident(const std::string& s) {
@@ -196,11 +214,12 @@ int file_index(const std::string& w) {      // "t" = the test's file, "0".."3" =
 
 struct Program {
     std::string rep;            // none | bare | a<N> | s<N>
-    bool verbose, runIgnored, haveCfg;
+    int verbosity;              // 0, 1 (-v), 2 (-vv), 3 (-v -vv)
+    bool runIgnored, color, rethrow, haveCfg;
     std::vector<std::pair<std::string, std::string> > filters;
     std::vector<PluginDef*> plugins;
     std::vector<TestDef*> tests;
-    Program() : rep("none"), verbose(false), runIgnored(false), haveCfg(false) {}
+    Program() : rep("none"), verbosity(0), runIgnored(false), color(false), rethrow(false), haveCfg(false) {}
 };
 
 TestDef* find_test(Program& p, const std::string& label) {
@@ -220,8 +239,10 @@ bool parse_stmt(const vh::Words& w, size_t at, St& s) {
     if (k == "mark" && rest == 1) { s.kind = MARK; s.n = (int) vh::to_u64(w[at + 1]); return true; }
     if (k == "pass" && rest == 0) { s.kind = PASS; return true; }
     if (k == "passc" && rest == 0) { s.kind = PASSC; return true; }
-    if ((k == "failcpp" || k == "checkcpp" || k == "failc" || k == "checkc") && rest == 2) {
-        s.kind = k == "failcpp" ? FAILCPP : k == "checkcpp" ? CHECKCPP : k == "failc" ? FAILC : CHECKC;
+    if ((k == "failcpp" || k == "checkcpp" || k == "failc" || k == "checkc" || k == "failtest" || k == "shellfail" ||
+         k == "shellfailc") && rest == 2) {
+        s.kind = k == "failcpp" ? FAILCPP : k == "checkcpp" ? CHECKCPP : k == "failc" ? FAILC : k == "checkc" ? CHECKC :
+                 k == "failtest" ? FAILTEST : k == "shellfail" ? SHELLFAIL : SHELLFAILC;
         s.file = file_index(w[at + 1]); s.line = (size_t) vh::to_u64(w[at + 2]);
         return s.file != -2;
     }
@@ -229,7 +250,9 @@ bool parse_stmt(const vh::Words& w, size_t at, St& s) {
     if (k == "checkplain" && rest == 0) { s.kind = CHECKPLAIN; return true; }
     if (k == "failcplain" && rest == 0) { s.kind = FAILCPLAIN; return true; }
     if (k == "checkcplain" && rest == 0) { s.kind = CHECKCPLAIN; return true; }
+    if (k == "failtestplain" && rest == 0) { s.kind = FAILTESTPLAIN; return true; }
     if (k == "exit" && rest == 0) { s.kind = EXITTEST; return true; }
+    if (k == "exitc" && rest == 0) { s.kind = EXITTESTC; return true; }
 #if CPPUTEST_HAVE_EXCEPTIONS
     if (k == "throwstd" && rest == 0) { s.kind = THROWSTD; return true; }
     if (k == "throwother" && rest == 0) { s.kind = THROWOTHER; return true; }
@@ -240,8 +263,10 @@ bool parse_stmt(const vh::Words& w, size_t at, St& s) {
 void run_program(Program& p) {
     std::vector<std::string> args;
     args.push_back("h_c01");
-    args.push_back("-e");                         // rethrow mode off
-    if (p.verbose) args.push_back("-v");
+    if (!p.rethrow) args.push_back("-e");         // rethrow mode off unless the case asks for it
+    if (p.verbosity & 1) args.push_back("-v");
+    if (p.verbosity & 2) args.push_back("-vv");
+    if (p.color) args.push_back("-c");
     if (p.runIgnored) args.push_back("-ri");
     for (size_t i = 0; i < p.filters.size(); i++) { args.push_back("-" + p.filters[i].first); args.push_back(p.filters[i].second); }
     if (p.rep == "bare") args.push_back("-r");
@@ -264,12 +289,25 @@ void run_program(Program& p) {
         plugins.push_back(pl);
         reg.installPlugin(pl);
     }
-    int ret;
+    int ret = 0;
+    g_clock_calls = 0;
+#if CPPUTEST_HAVE_EXCEPTIONS
+    const char* propagated = 0;
+    try {
+        Runner runner((int) av.size(), &av[0], &reg);
+        ret = runner.runAllTestsMain();
+    }
+    catch (const std::exception&) { propagated = "std"; }
+    catch (...) { propagated = "other"; }
+    if (propagated) { vh::emit("propagated %s", propagated); g_process_dirty = true; }
+    else vh::emit("ret %d", ret);
+#else
     {
         Runner runner((int) av.size(), &av[0], &reg);
         ret = runner.runAllTestsMain();
     }
     vh::emit("ret %d", ret);
+#endif
     vh::emit("final %d %s", depth(), current_name().c_str());
     for (size_t i = 0; i < plugins.size(); i++) delete plugins[i];
     for (size_t i = 0; i < shells.size(); i++) delete shells[i];
@@ -282,22 +320,37 @@ void run_case(const vh::Case& c) {
     g_outside = UtestShell::getCurrent();
     Program p;
     for (size_t i = 0; i < c.ops.size(); i++) {
-        const vh::Words& w = c.ops[i];
+        vh::Words w = c.ops[i];
+        if (w[0] == "cfg" && w.size() == 4) { w.push_back("0"); w.push_back("0"); }   // older replays: no colour / rethrow fields
         const std::string& op = w[0];
-        if (op == "cfg" && w.size() == 4 && !p.haveCfg &&
+        if (op == "cfg" && w.size() == 6 && !p.haveCfg &&
             (w[1] == "none" || w[1] == "bare" || ((w[1][0] == 'a' || w[1][0] == 's') && w[1].size() >= 2 && w[1].size() <= 3 &&
               w[1].find_first_not_of("0123456789", 1) == std::string::npos)) &&
-            (w[2] == "0" || w[2] == "1") && (w[3] == "0" || w[3] == "1")) {
-            p.haveCfg = true; p.rep = w[1]; p.verbose = w[2] == "1"; p.runIgnored = w[3] == "1";
+            (w[2] == "0" || w[2] == "1" || w[2] == "2" || w[2] == "3") && (w[3] == "0" || w[3] == "1") &&
+            (w[4] == "0" || w[4] == "1") && (w[5] == "0" || w[5] == "1")) {
+            p.haveCfg = true; p.rep = w[1]; p.verbosity = w[2][0] - '0'; p.runIgnored = w[3] == "1";
+            p.color = w[4] == "1"; p.rethrow = w[5] == "1";
             emit_words(w);
 #if CPPUTEST_HAVE_EXCEPTIONS
             vh::emit("variant exc");
 #else
             vh::emit("variant noexc");
 #endif
-            // the lines of the four plain macro sites (their functions are laid out one per line)
-            vh::emit("sites %s %d %d %d %d", vh::hex(std::string(__FILE__)).c_str(),
-                     SITE_LINE0, SITE_LINE0 + 1, SITE_LINE0 + 2, SITE_LINE0 + 3);
+            // the lines of the five plain macro sites (their functions are laid out one per line)
+            vh::emit("sites %s %d %d %d %d %d", vh::hex(std::string(__FILE__)).c_str(),
+                     SITE_LINE0, SITE_LINE0 + 1, SITE_LINE0 + 2, SITE_LINE0 + 3, SITE_LINE0 + 4);
+        }
+        else if (op == "clock" && w.size() >= 4 && w.size() <= 11) {      // clock <base> <step> <off>...
+            bool ok = true;
+            for (size_t k = 1; k < w.size(); k++)
+                if (w[k].empty() || w[k].size() > 18 || w[k].find_first_not_of("0123456789") != std::string::npos) ok = false;
+            if (ok) {
+                g_clock_base = vh::to_u64(w[1]); g_clock_step = vh::to_u64(w[2]);
+                g_clock_n = (unsigned) (w.size() - 3);
+                for (unsigned k = 0; k < g_clock_n; k++) g_clock_offs[k] = vh::to_u64(w[3 + k]);
+                emit_words(w);
+            }
+            else vh::emit("> skip");
         }
         else if (op == "filter" && w.size() == 3 && (w[1] == "sg" || w[1] == "sn" || w[1] == "xsg" || w[1] == "xsn") && is_ident(w[2])) {
             p.filters.push_back(std::make_pair(w[1], w[2]));
@@ -330,7 +383,7 @@ void run_case(const vh::Case& c) {
             }
             else vh::emit("> skip");
         }
-        else if (op == "run" && w.size() == 1 && p.haveCfg) {
+        else if (op == "run" && w.size() == 1 && p.haveCfg && !g_process_dirty) {
             vh::emit_op("run");
             run_program(p);
         }
